@@ -304,7 +304,55 @@ func runC15Reuse(c *mon.Case) {
 	rounds := 2 + rng.Intn(3)
 	rep := map[string]any{"variant": "G-reuse", "reader_is_client": readerIsClient, "connections": rounds}
 	var script []string
+	var prevW net.Conn // the writer's connection of the previous round (closed)
+	lateWrite := func(when string) bool {
+		// The holder of a closed connection writes to it once more (a
+		// goroutine of the old transport that has not noticed yet). The
+		// call must fail; it must not crash, and it must not reach
+		// another connection (the stream comparison below sees that).
+		if prevW == nil {
+			return true
+		}
+		var n int
+		var werr error
+		panicked := func() (p any) {
+			defer func() { p = recover() }()
+			n, werr = prevW.Write([]byte("late write on the connection that was closed"))
+			return nil
+		}()
+		c.Shard.Count("late_writes_on_closed_connections", 1)
+		if panicked != nil {
+			c.Shard.Violate("contract|G|write-after-close-panics", fmt.Sprintf("Write on a closed connection %s panicked: %v (script %v)", when, panicked, script), rep)
+			return false
+		}
+		if werr == nil {
+			c.Shard.Violate("contract|G|write-after-close-accepted", fmt.Sprintf("Write on a closed connection %s returned n=%d, err=nil (script %v)", when, n, script), rep)
+			return false
+		}
+		return true
+	}
 	for round := 0; round < rounds; round++ {
+		if round > 0 && rng.Intn(3) == 0 {
+			// a handshake of the writer's credentials object that fails
+			// (the transport is dead on arrival), then the late write
+			dead, other, _, _ := sim.NewDuplexPair()
+			other.In.Close()
+			other.Out.Close()
+			var herr error
+			if readerIsClient {
+				_, _, herr = sp.Noise.ServerHandshake(&fakeProxy{dead})
+			} else {
+				_, _, herr = cp.Noise.ClientHandshake(context.Background(), "", &fakeProxy{dead})
+			}
+			if herr == nil {
+				c.Shard.Inconc("handshake over a dead transport succeeded")
+				return
+			}
+			script = append(script, "failed handshake of the writer's credentials object")
+			if !lateWrite("after a failed handshake of the same credentials object") {
+				return
+			}
+		}
 		cc, sc, err := connect()
 		if err != nil {
 			c.Shard.Violate("contract|G|reuse", fmt.Sprintf("connection #%d over the same credentials objects: %v (script %v)", round+1, err, script), rep)
@@ -313,6 +361,12 @@ func runC15Reuse(c *mon.Case) {
 		w, r := sc, cc
 		if !readerIsClient {
 			w, r = cc, sc
+		}
+		if round > 0 && rng.Intn(2) == 0 {
+			if !lateWrite("while the next connection of the same credentials object is open") {
+				return
+			}
+			script = append(script, "late write on the previous connection")
 		}
 		dir := byte('p' + round)
 		nw := 1 + rng.Intn(4)
@@ -365,6 +419,7 @@ func runC15Reuse(c *mon.Case) {
 		_ = cc.Close()
 		_ = sc.Close()
 		<-werr
+		prevW = w
 	}
 	rep["script"] = script
 	c.Shard.Count("reused_credentials_sessions", 1)
